@@ -72,9 +72,9 @@ type tierCfg struct {
 
 func cfg(tier string) tierCfg {
 	if tier == "thorough" {
-		return tierCfg{items: 60000, schedules: 16, siteFlips: true, native: 40, budget: 20000}
+		return tierCfg{items: 60000, schedules: 16, siteFlips: true, native: 20, budget: 20000}
 	}
-	return tierCfg{items: 1400, schedules: 6, siteFlips: true, native: 100, budget: 6000}
+	return tierCfg{items: 1400, schedules: 6, siteFlips: true, native: 8, budget: 6000}
 }
 
 func (d *D) Count(tier string) int { return cfg(tier).items }
@@ -99,6 +99,10 @@ var targeted = []string{
 	"m := {b:[] a:[1]}\nn := {a:[] b:[\"s\"]}\nprint (typeof m) (typeof n)\n",
 	"m := {a:[] b:{} c:[[]] d:1}\nprint (typeof m) m\n",
 	"u1 := 1\nu2 := \"s\"\nfunc g a:num\n    v1 := a\n    v2 := a\nend\non key\n    w1 := 1\n    w2 := 2\nend\n",
+	// built-ins that return composites, in literals, inferred declarations and any values (their declared types are shared by every parse of the process)
+	"words := [(split \"c d\" \" \") []]\nx := split \"a b\" \" \"\nprint (typeof words) words[0][1] x (typeof x)\n",
+	"x := split \"a,b\" \",\"\ny := [x (split \"c\" \",\")]\nz := [(split \"d\" \",\") [\"e\"]]\na:any\na = split \"f g\" \" \"\nprint (typeof y) (typeof z) (typeof a) x y z a\n",
+	"func f:[]string\n    return split \"a b\" \" \"\nend\nm := {k:(split \"a\" \"b\") j:[]}\nw := f\nprint (typeof m) (typeof w) m w (typeof [(f) []])\n",
 	// multiline literals with blank lines and comments in every position (formatter bookkeeping)
 	"a := [\n    1\n\n\n    2\n\n\n\n    3\n]\nm := {\n    a:1\n\n\n    b:2\n\n\n}\nprint a m\n",
 	"a := [ // c1\n    1 // c2\n\n\n    // c3\n    [\n\n\n        2\n\n\n        3\n    ]\n]\nprint a\n",
@@ -476,7 +480,7 @@ func (d *D) RunItem(idx int, ctx *core.Ctx) {
 		}
 	}
 	if c.native > 0 && prng.Mix(uint64(idx), 0x5eed)%uint64(c.native) == 0 && !found && os.Getenv("VERIF_NO_CONFORM") == "" {
-		d.native(sc, ctx, obs0)
+		d.native(sc, ctx, obs0, c.budget)
 	}
 	if len(ctx.St.Samples) < 3 && len(multi) > 0 && len(sc.Program) < 500 {
 		ctx.Sample(map[string]any{"program": sc.Program, "inputs": sc.Inputs, "events": sc.Events, "rand_seed": sc.RandSeed,
@@ -487,7 +491,7 @@ func (d *D) RunItem(idx int, ctx *core.Ctx) {
 // native runs the scenario on the UNrewritten tree in fresh processes with
 // different GOMAXPROCS: the Go runtime's own map seed and ASLR are the
 // uncontrolled schedule here. This layer is a net under the seams.
-func (d *D) native(sc *core.Scenario, ctx *core.Ctx, obsSim string) {
+func (d *D) native(sc *core.Scenario, ctx *core.Ctx, obsSim string, budget int) {
 	bin := filepath.Join(core.ScratchDir, "bin", "drvplain")
 	if _, err := os.Stat(bin); err != nil {
 		ctx.Inc("native_layer_skipped_no_binary", 1)
@@ -504,7 +508,7 @@ func (d *D) native(sc *core.Scenario, ctx *core.Ctx, obsSim string) {
 	}
 	var first string
 	for i, procs := range []string{"1", "4", "16"} {
-		cmd := exec.Command(bin, "-observe", tmp.Name(), "-repeat", "6")
+		cmd := exec.Command(bin, "-observe", tmp.Name(), "-repeat", "6", "-budget", fmt.Sprint(budget))
 		cmd.Env = append(os.Environ(), "GOMAXPROCS="+procs, fmt.Sprintf("GOGC=%d", 50+i*100))
 		out, err := cmd.Output()
 		ctx.Inc("evaluations", 6)
@@ -533,7 +537,16 @@ func (d *D) native(sc *core.Scenario, ctx *core.Ctx, obsSim string) {
 			return
 		}
 	}
-	_ = obsSim
+	// ... and the fresh processes agree with this worker process, which has parsed and run
+	// many other programs before this one: nothing that earlier programs left behind in the
+	// process (package-level tables, shared declarations, caches) may show in this one
+	if first != "" && obsSim != first && !strings.Contains(obsSim, "FORMAT-CRASH") && !strings.Contains(obsSim, "host-panic") {
+		v := sc.Clone()
+		v.ReplayExact = false
+		ctx.Violate(v, &core.Violation{Oracle: "native-repeat", Signature: "native:used-process",
+			Expected: "a run in a process that has parsed and run other programs before reproduces, byte for byte, the run in a new process",
+			Observed: map[string]any{"first_difference": firstDiff(first, obsSim), "note": "schedule1 = new process, schedule2 = this worker process after earlier programs"}, Match: map[string]string{"observable": "native-used-process"}})
+	}
 }
 
 func tail(s string, n int) string {
@@ -544,10 +557,10 @@ func tail(s string, n int) string {
 }
 
 // Observe is used by the plain binary: run the scenario n times natively and print the observables.
-func Observe(sc *core.Scenario, n int) string {
+func Observe(sc *core.Scenario, n, budget int) string {
 	var first string
 	for i := 0; i < n; i++ {
-		_, o := run(sc, sc.Schedule, 6000)
+		_, o := run(sc, sc.Schedule, budget)
 		if i == 0 {
 			first = o
 		} else if o != first {
